@@ -175,6 +175,67 @@ def run(res, tier, seed):
                 first = {"what": f"`rva lint {' '.join(mode)}` prints {len(outs)} different outputs in 4 runs on "
                                  "the same file", "source": s,
                          "replay_cmd": f"for i in 1 2 3 4; do {RVA} lint {' '.join(mode)} {path} | sha256sum; done"}
+    # (4) multi-file inputs: programs cut into include trees (file identifiers are random per run),
+    # in one process through the library and in separate processes through the CLI with --all-files;
+    # and programs that use several undefined labels (one error, located at one of them)
+    from props.c15 import split_tree
+    stats["multi_file_inputs"] = 0
+    mroot = os.path.join(WORK, "c10_multi")
+    multi = []
+    for s in [x for x in srcs if ".include" not in x][: (10 if tier == "quick" else 80)]:
+        files, _ = split_tree(rng, s.rstrip("\n").split("\n"))
+        if len(files) < 2:
+            continue
+        multi.append([("base.s", "\n".join(files["base.s"]) + "\n")] +
+                     [(k_, "\n".join(v_) + "\n") for k_, v_ in files.items() if k_ != "base.s"])
+    undef = ["main:\n    j nowhere1\n    beqz a0, nowhere2\n    li a7, 10\n    ecall\n",
+             "main:\n    jal zz_fn\n    bnez a0, aa_lab\n    la t0, mm_sym\n    call bb_fn\n    li a7, 10\n    ecall\n",
+             "main:\n    beqz a0, L2\n    j L10\n    li a7, 10\n    ecall\n"]
+    multi += [[("base.s", u)] for u in undef]
+    multi.append([("base.s", '.include "z.s"\n.include "a.s"\nmain:\n    li t0, 1\n    li a7, 10\n    ecall\n'),
+                  ("z.s", "fz:\n    li t1, 2\n    ret\n"), ("a.s", "fa:\n    li t2, 3\n    ret\n")])
+    mreqs = []
+    for fl in multi:
+        mreqs += [pipe_req("run", fl)] * reps
+    mout = run_lines_isolated(RVH_DEBUG, mreqs, chunk=60)
+    mmodel = run_lines_isolated(DRIVER, [pipe_req("lints,run", fl) for fl in multi], chunk=50, timeout=120)
+    mmodel_d = run_lines_isolated(DRIVER, [pipe_req("lints,run", fl) + " desc" for fl in multi], chunk=50, timeout=120)
+    nrm = lambda blk: [re.sub(r" desc=\S+", "", re.sub(r" alts=\S+", "", l)) for l in blk if l.startswith("RUN ")]
+    for j, fl in enumerate(multi):
+        stats["multi_file_inputs"] += 1
+        stats["runs_in_process"] += reps
+        if nrm(mmodel[j]) != nrm(mmodel_d[j]) or not ambiguous_free(mmodel[j]) or \
+                any(l.startswith(("HANG", "CRASH")) for l in mmodel[j]):
+            continue            # order-dependent by the model (F-14 / F-28): judged on single files above
+        runs = [nrm(mout[j * reps + k]) for k in range(reps)]
+        for k in range(1, reps):
+            if runs[k] != runs[0] and first is None:
+                diff = [x for x in runs[0] if x not in runs[k]][:2] + [x for x in runs[k] if x not in runs[0]][:2]
+                first = {"what": f"two lint runs of the same {len(fl)} file(s) in one process differ (run 1 vs run "
+                                 f"{k + 1}): {diff if diff else 'same items, different order'}", "files": fl,
+                         "replay_cmd": "for i in 1 2 3 4 5 6; do echo '%s'; done | %s | sort | uniq -c" %
+                                       (pipe_req("run", fl), RVH_DEBUG)}
+        if nrm(mmodel[j]) != runs[0] and first is None and len(fl) > 1:
+            first = {"what": "order of the diagnostics of a multi-file input differs from the model's (files by "
+                             "name, then position)", "files": fl, "impl": runs[0][:6], "model": nrm(mmodel[j])[:6],
+                     "no_input": True}
+        if j < (6 if tier == "quick" else 40) or len(fl) == 1:
+            d = os.path.join(mroot, str(j))
+            for name, text in fl:
+                os.makedirs(os.path.dirname(os.path.join(d, name)) or d, exist_ok=True)
+                with open(os.path.join(d, name), "w") as f:
+                    f.write(text)
+            for mode in (["--json", "--all-files"], ["--compact", "--no-color", "--all-files"], ["--no-color"]):
+                outs = set()
+                for _ in range(4):
+                    p = subprocess.run([RVA, "lint"] + mode + ["base.s"], cwd=d, stdout=subprocess.PIPE,
+                                       stderr=subprocess.DEVNULL, env=ENV, timeout=30)
+                    stats["runs_separate_processes"] += 1
+                    outs.add(hashlib.sha256(p.stdout).hexdigest())
+                if len(outs) > 1 and first is None:
+                    first = {"what": f"`rva lint {' '.join(mode)}` prints {len(outs)} different outputs in 4 runs on the "
+                                     f"same {len(fl)} file(s)", "files": fl,
+                             "replay_cmd": f"cd {d} && for i in 1 2 3 4; do {RVA} lint {' '.join(mode)} base.s | sha256sum; done"}
     res.cov["evaluations"] = stats["runs_in_process"] + stats["runs_separate_processes"]
     res.cov["distinct_nontrivial"] = len(set(srcs))
     res.cov["rule"] = ("generated violating programs and many-diagnostic programs (several diagnostics on one "
@@ -185,4 +246,9 @@ def run(res, tier, seed):
     res.cov["samples"] = [srcs[0]]
     res.cov["input_distribution"] = stats
     res.cov["traces_validated_against_impl"] = stats["runs_in_process"]
-    conclude(res, "C10", first, None, proof_ok, "no run-to-run difference or duplicate found")
+    if first is not None and first.get("no_input"):
+        conclude(res, "C10", None, {"stage": "run (order of files)", "source": str(first["files"])[:2000],
+                                    "impl_vs_model": [first["impl"], first["model"]]}, proof_ok,
+                 "no run-to-run difference or duplicate found")
+    else:
+        conclude(res, "C10", first, None, proof_ok, "no run-to-run difference or duplicate found")
